@@ -2002,6 +2002,16 @@ void DOMRangeImpl::updateSplitInfo(DOMNode* oldNode, DOMNode* startNode, XMLSize
         if (fStartOffset > offset) {
             fStartOffset = fStartOffset - offset;
             fStartContainer = startNode;
+
+            // The new node was inserted right behind the old one. An end
+            // boundary-point at that very index in the parent is left alone
+            // by the insertion and would now lie before the start: keep it
+            // behind the text it was behind.
+            DOMNode* parent = oldNode->getParentNode();
+            if (parent != 0 && fEndContainer == parent
+                && startNode->getParentNode() == parent
+                && fEndOffset == indexOf(oldNode, parent) + 1)
+                fEndOffset++;
         }
     }
 
